@@ -414,6 +414,23 @@ Definition is_file (f : field) : bool :=
 Definition f_bytes (f : field) : bytes := List.concat (f_pieces f).
 Definition f_text (f : field) : list Z := List.concat (map utf8_decode (f_pieces f)).
 
+(* what FieldStorageParser.parse takes from the headers of a part:
+   (field.name, field.filename, field.type); [ob] is the outer boundary
+   (non-empty inside a multipart body) *)
+Definition part_meta (hdrs : list (list Z * list Z)) (ob : bytes)
+  : option (list Z) * option (list Z) * list Z :=
+  let pd := match hdr_get hdrs (s2l "content-disposition") with
+            | Some v => snd (parse_header v)
+            | None => []
+            end in
+  let ctype := match hdr_get hdrs (s2l "content-type") with
+               | Some v => fst (parse_header v)
+               | None => if is_nil ob
+                         then s2l "application/x-www-form-urlencoded"
+                         else s2l "text/plain"
+               end in
+  (pd_get pd (s2l "name"), pd_get pd (s2l "filename"), ctype).
+
 Section Parser.
   Variable St : Type.
   Variable rl : Z -> St -> bytes * St.     (* input.readline(size) *)
@@ -471,18 +488,7 @@ Section Parser.
   Definition parse_part (fuel : nat) (hdrs : list (list Z * list Z))
              (ob : bytes) (limit : option Z) (s : St)
     : outcome (field * Z * Z * St) :=
-    let pd := match hdr_get hdrs (s2l "content-disposition") with
-              | Some v => snd (parse_header v)
-              | None => []
-              end in
-    let name := pd_get pd (s2l "name") in
-    let filename := pd_get pd (s2l "filename") in
-    let ctype := match hdr_get hdrs (s2l "content-type") with
-                 | Some v => fst (parse_header v)
-                 | None => if is_nil ob
-                           then s2l "application/x-www-form-urlencoded"
-                           else s2l "text/plain"
-                 end in
+    let '(name, filename, ctype) := part_meta hdrs ob in
     if lz_eqb ctype (s2l "application/x-www-form-urlencoded")
     then Unmodelled "urlencoded part"
     else if lz_eqb (slice_to ctype 10) (s2l "multipart/")
@@ -627,6 +633,42 @@ Definition boundary_ok (b : bytes) : bool :=
   | c :: t => graphic c && forallb printable t && (len t <=? 200)
   | [] => false
   end.
+(* What may follow a dash-boundary that starts a line of the content: the
+   text [y] behind it (up to and including the CRLF in front of the real
+   delimiter) must not make the line read "--b" or "--b--" plus white space.
+   Near copies such as "--bX", "--b-", "--b--X" are fine. *)
+Definition harmless (y : bytes) : bool :=
+  match y with
+  | [] => false
+  | z :: r =>
+      if is_ws z then false
+      else if negb (z =? 45) then true
+      else match r with
+           | [] => true
+           | z2 :: r2 =>
+               if negb (z2 =? 45) then true
+               else match r2 with
+                    | [] => false
+                    | z3 :: _ => negb (is_ws z3)
+                    end
+           end
+  end.
+(* no line of the content c is a delimiter line of boundary b *)
+Definition no_delim_line (b c : bytes) : Prop :=
+  forall x y, 10 :: c = x ++ (10 :: dashb b) ++ y ->
+              harmless (y ++ [13; 10]) = true.
+(* the same, computed *)
+Fixpoint no_delim_from (pat : bytes) (s : bytes) : bool :=
+  match s with
+  | [] => true
+  | _ :: s' =>
+      (if prefixb pat s
+       then harmless (skipn (List.length pat) s ++ [13; 10]) else true)
+      && no_delim_from pat s'
+  end.
+Definition no_delim_lineb (b c : bytes) : bool :=
+  no_delim_from (10 :: dashb b) (10 :: c).
+
 (* the limit test of read_lines_to_outerboundary cannot fire before the
    delimiter line was read *)
 Definition limit_ok (limit : option Z) (clen : Z) : Prop :=
@@ -634,6 +676,32 @@ Definition limit_ok (limit : option Z) (clen : Z) : Prop :=
   | None => True
   | Some L => L < 0 \/ clen + 2 < L
   end.
+
+(* the header block of a part as the encoder writes it *)
+Definition hdr_bytes (p : part) : bytes := utf8_encode (part_header_text p).
+(* the header codec (FeedParser subset + parse_header) gives back the name,
+   filename and media type of the part, and the media type is one that is
+   read as an atomic part *)
+Definition headers_decode (b : bytes) (p : part) : Prop :=
+  exists hs, part_headers (utf8_decode (hdr_bytes p)) = Some hs /\
+    part_meta hs b = (Some (p_name p), p_filename p, expected_type p) /\
+    lz_eqb (expected_type p) (s2l "application/x-www-form-urlencoded") = false /\
+    lz_eqb (slice_to (expected_type p) 10) (s2l "multipart/") = false.
+(* a part the round trip is stated for: no LF in name, filename and media
+   type (they are written into header lines), headers that decode, and no
+   line of the content is a delimiter line *)
+Definition part_ok (b : bytes) (p : part) : Prop :=
+  ~ In 10 (p_name p) /\
+  (forall f, p_filename p = Some f -> ~ In 10 f) /\
+  (forall t, p_ctype p = Some t -> ~ In 10 t) /\
+  headers_decode b p /\
+  no_delim_line b (p_content p).
+(* the request Content-Type value names a multipart type and boundary b *)
+Definition ctype_names (ctv : list Z) (b : bytes) : Prop :=
+  lz_eqb (fst (parse_header ctv)) (s2l "application/x-www-form-urlencoded")
+    = false /\
+  lz_eqb (slice_to (fst (parse_header ctv)) 10) (s2l "multipart/") = true /\
+  pd_get (snd (parse_header ctv)) (s2l "boundary") = Some b.
 
 (* The contract of a line source, for the size arguments [L] it is called
    with and on the states [P] it can be in.  [rem s] are the bytes not yet
